@@ -23,24 +23,31 @@ import (
 )
 
 type jsession struct {
-	w       *px.Writer
-	kind    string
-	ver     string
-	size    uint
-	timeout time.Duration
-	nocopy  bool
+	// arena: in sessions with an even JoinSize (unite) every input slice is a sub-slice of one
+	// shared array with spare capacity, the next input lying in the spare capacity of the
+	// previous one - like chunks `data[i:j]` of a producer's batch.  The disciplines only
+	// ever read `item[0:len]`; one that looks at `cap(item)` or appends to an input slice
+	// shows up as corrupted output / wrong batching.
+	arena    []int
+	arenaPos int
+	w        *px.Writer
+	kind     string
+	ver      string
+	size     uint
+	timeout  time.Duration
+	nocopy   bool
 
-	process func(id int, xs []int)
-	pass    func()
+	process   func(id int, xs []int)
+	pass      func()
 	timeouted func() bool
 	setPassAt func(time.Time)
 	getPassAt func() time.Time
 	paBefore  time.Time
-	buffer  func() []int
-	output  <-chan []int
-	release func()
-	stop    func()
-	unrel   func() bool
+	buffer    func() []int
+	output    <-chan []int
+	release   func()
+	stop      func()
+	unrel     func() bool
 
 	inputs   map[int][]int // unite: the input slices by id (kept alive for identity checks)
 	busy     chan struct{} // non-nil while a call is blocked awaiting release
@@ -90,6 +97,9 @@ func newJSession(w *px.Writer, kind, ver string, size uint, timeout time.Duratio
 		nc = 1
 	}
 	s.script = []string{fmt.Sprintf("jcfg %s %s %d %d %d", kind, ver, size, int64(timeout), nc)}
+	if kind == "unite" && size%2 == 0 {
+		s.arena = make([]int, 1<<16)
+	}
 	switch {
 	case kind == "join" && ver == "v2":
 		in := make(chan int)
@@ -271,6 +281,11 @@ func (s *jsession) exec(op string) string {
 				v, _ := strconv.Atoi(f)
 				xs = append(xs, v)
 			}
+		}
+		if s.arena != nil && s.arenaPos+len(xs) < len(s.arena) {
+			copy(s.arena[s.arenaPos:], xs)
+			xs = s.arena[s.arenaPos : s.arenaPos+len(xs)] // cap reaches to the end of the arena
+			s.arenaPos += len(xs)
 		}
 		s.inputs[id] = xs
 		s.consumed = append(s.consumed, append([]int(nil), xs...))
